@@ -3,20 +3,23 @@ import astq
 from rules import a64patch, aes, argon, decode, driver, dsinit, genreset, jitcross
 
 LEVEL = 'other'
-TECHNIQUE = 'CFG dominance on the drivers, definite-assignment of per-program VM state, decoder def-use path enumeration, guard/capture agreement of the set_cache shortcut, sibling comparison of call sequences; vtable-resolved effect comparison of the two binding setters'
+TECHNIQUE = ('CFG dominance on the drivers, definite-assignment of per-program VM state, decoder def-use path enumeration, guard/capture agreement of the set_cache shortcut, sibling comparison of call sequences; vtable-resolved effect comparison of the two binding setters'
+         '; interprocedural needs / must-set summaries over the statement CFGs of each JIT back-end (generator state re-initialised by every entry point); path-count analysis of the A64 template patch sites')
 CLAIM = ('Decides statically the mechanisms that make a hash independent of object history: the scratchpad refill and rounding reset dominate every program run in all '
          'drivers and cover the whole workspace; every per-program VM field is assigned by initialize(); the bytecode decoder defines every field its executors read '
          '(bytecode[] survives across programs, keys and v1/v2 switches, so an undefined field would be a stale one); key bookkeeping follows every bind; the same-key '
          'shortcut of randomx_vm_set_cache compares every pointer a setCache override captures; v1/v2 switches reach the compiler; first/next/last are the single-call '
          'sequence. Equality of digests over histories is numeric and not claimed.'
          ' Also: every v1/v2 patch the AArch64 back-end applies to its persistent code buffer is undone by the other arm (V2-SYM), and the fused fingerprint-and-refill covers exactly the scratchpad for every size (AES-COVER).'
-         ' In every concrete VM class at most one of the resolved virtual setters setCache / setDataset writes to the object (BIND-EXCL, vtables of the linked IR), because randomx_create_vm calls both and the two pointers share storage.')
+         ' In every concrete VM class at most one of the resolved virtual setters setCache / setDataset writes to the object (BIND-EXCL, vtables of the linked IR), because randomx_create_vm calls both and the two pointers share storage.'
+         ' No generator state leaks from one generate* call into the next in any of the three back-ends (GEN-RESET: every scalar member the handlers advance is set by each entry point before it is read), every patch site of the A64 template is rewritten with the same number of words by every program (A64-PATCHLEN), and the compiled SuperscalarHash is regenerated at every cache initialisation (DS-INITSEL).')
 LEVEL_NOTE = ('Trusted: clang 14 AST of the build flags; the design assumption that cache content is a function of the key; hand-written asm prologue zeroes r0-r7 '
               '(checked as constants in C04), JIT-emitted code reads only what initialize()/generateProgram wrote.')
 EXPLANATION = ('Rules DRV-RESET, DRV-SEQ, DRV-SIB, DRV-REFILL, VM-STATEINIT, BIND-KEY, BIND-GUARD, FLAG-PROP and DEC-DEFUSE evaluated on the resolved AST of '
                'src/randomx.cpp, virtual_machine.cpp, vm_*.cpp and bytecode_machine.cpp for every template instantiation.'
                ' V2-SYM (A64), AES-FUSED, AES-COVER, A2-SKELETON.'
-               ' BIND-EXCL.')
+               ' BIND-EXCL.'
+         ' GEN-RESET x3, A64-PATCHLEN, DS-INITSEL.')
 
 
 def run(ctx, R):
